@@ -158,6 +158,27 @@ func (p *Prog) dynamicTargets(v ssa.Value, in *ssa.Function, depth int) []*ssa.F
 		}
 	case *ssa.Lookup:
 		return p.tableFuncs(t.X)
+	case *ssa.Call:
+		// a module function returning a function value: what its returns may be
+		callee := t.Call.StaticCallee()
+		if callee == nil || t.Call.IsInvoke() || !p.InModuleFn(callee) {
+			return nil
+		}
+		var out []*ssa.Function
+		okAll := true
+		funcInstrs(callee, func(x ssa.Instruction) {
+			if rt, isR := x.(*ssa.Return); isR && len(rt.Results) == 1 {
+				fs := p.dynamicTargets(retVal(rt, 0), callee, depth+1)
+				if len(fs) == 0 {
+					okAll = false
+				}
+				out = append(out, fs...)
+			}
+		})
+		if !okAll {
+			return nil
+		}
+		return out
 	case *ssa.Phi:
 		var out []*ssa.Function
 		for _, e := range t.Edges {
